@@ -105,6 +105,16 @@ CHECKS.update({
    note=NET_NOTE, technique="TLA+ model checking (TLC) + trace validation of real DNS executions with delayed frames"),
 })
 
+CHECKS.update({
+ "C02": dict(level="model_checking", ref="DESIGN.md 7 C02",
+   text="SockPipe.tla: the socket -> TcpSession -> TCB (abstract ordered pipe, C01) -> SocketSession -> Socket::recv pipeline with re-chunking, accept backlog and the stored remainder, "
+        "all interleavings (stream = concatenation of writes in order, recv(n) <= n, nothing dropped, complete); the as-found variants (task per write, recv budget, queue overflow) are "
+        "refuted by TLC and were reproduced on the code (F2, F3 repaired; K1 recorded). Real socket applications over the complete stack with jitter / bounded loss / duplicates on the "
+        "current_thread runtime (virtual time) and on multi_thread runtimes with 2-16 workers, every read validated by TraceSock.tla.",
+   note=NET_NOTE + " Known finding K1 (255-slot socket queue drops stream bytes) is reported as KNOWN-FINDING.",
+   technique="TLA+ model checking (TLC) + trace validation of real socket executions on both runtime flavours"),
+})
+
 NOT_APPLICABLE = {}
 PENDING = ["C02", "C04", "C05", "C06", "C07", "C08", "C09", "C10", "C11", "C13", "C14", "C15", "C16", "C18", "C19", "C20"]
 
